@@ -60,8 +60,19 @@ func write3MF(wg *sync.WaitGroup, path string) (chan<- []*sdf.Triangle3, error) 
 	model.Resources.Objects = append(model.Resources.Objects, obj)
 	model.Build.Items = append(model.Build.Items, &go3mf.Item{ObjectID: obj.ID})
 
-	// use the mesh builder to de-dup the vertices
-	mb := go3mf.NewMeshBuilder(&mesh)
+	// De-dup the vertices on their exact float32 coordinates. (The go3mf mesh
+	// builder keys vertices by int32(floor(x/1e-6)), which overflows beyond
+	// +/-2147.48 and merges distinct vertices.)
+	index := make(map[go3mf.Point3D]uint32)
+	addVertex := func(p go3mf.Point3D) uint32 {
+		if i, ok := index[p]; ok {
+			return i
+		}
+		i := uint32(len(mesh.Vertices.Vertex))
+		mesh.Vertices.Vertex = append(mesh.Vertices.Vertex, p)
+		index[p] = i
+		return i
+	}
 
 	wg.Add(1)
 	go func() {
@@ -70,9 +81,9 @@ func write3MF(wg *sync.WaitGroup, path string) (chan<- []*sdf.Triangle3, error) 
 		// read triangles from the channel and add them to the model
 		for ts := range c {
 			for _, t := range ts {
-				v1 := mb.AddVertex(toPoint3D(t[0]))
-				v2 := mb.AddVertex(toPoint3D(t[1]))
-				v3 := mb.AddVertex(toPoint3D(t[2]))
+				v1 := addVertex(toPoint3D(t[0]))
+				v2 := addVertex(toPoint3D(t[1]))
+				v3 := addVertex(toPoint3D(t[2]))
 				mesh.Triangles.Triangle = append(mesh.Triangles.Triangle, go3mf.Triangle{V1: v1, V2: v2, V3: v3})
 			}
 		}
